@@ -53,6 +53,10 @@ func cmdGtldGen(args []string) {
 		{"upper-case-name", with(genEntry{"UPPER", sp("2016-01-02"), nil}), tldsClean, "case"},
 		{"mixed-case-name", with(genEntry{"MiXed", sp("2016-01-02"), nil}), tldsClean, "case"},
 		{"tld-list-with-blank-lines-and-crlf", clean, "# Version\r\nAAA\r\n\r\nCOM\r\n", "clean"},
+		{"listed-twice-closed-then-open", with(genEntry{"twice", sp("2014-03-01"), sp("2016-06-30")}, genEntry{"twice", sp("2020-02-02"), nil}), tldsClean, "dup"},
+		{"listed-twice-open-then-closed", with(genEntry{"twice", sp("2020-02-02"), nil}, genEntry{"twice", sp("2014-03-01"), sp("2016-06-30")}), tldsClean, "dup"},
+		{"listed-twice-and-in-tld-list", with(genEntry{"aaa", sp("2019-01-01"), sp("2019-06-01")}), tldsClean, "dup"},
+		{"never-delegated-but-in-tld-list", with(genEntry{"uk", nil, nil}), tldsClean, "clean"},
 	}
 	w := ev.Create(out("gtldgen.ndjson"))
 	for si, sc := range scenarios {
